@@ -15,6 +15,7 @@ shapes = {}
 for m in PY_MODULES:
     tree = ast.parse(open('/repo/fastparquet/%s.py' % m).read())
     mg = canon.module_globals_of(tree)
-    shapes[m] = {q: dict(canon.shape_of(f), skel=canon.skeleton(f, mg), else_n=canon.else_counts(f)) for q, f in canon.top_functions(tree)}
+    shapes[m] = {q: dict(canon.shape_of(f), skel=canon.skeleton(f, mg), else_n=canon.else_counts(f), temps=canon.ref_temps(f)) for q, f in canon.top_functions(tree)}
+    shapes[m]['__module__'] = {'globals': sorted(mg)}
 json.dump(shapes, open(canon.SHAPE_PATH, 'w'), indent=0)
-print(sum(len(v['cmp']) + len(v['if']) for d in shapes.values() for v in d.values()), 'orientation facts')
+print(sum(len(v['cmp']) + len(v['if']) for d in shapes.values() for q, v in d.items() if q != '__module__'), 'orientation facts')
